@@ -821,6 +821,20 @@ func trackRun(e *Env) {
 		}
 		c.Handle("001", welcomed("fg"))
 		c.HandleBG("001", welcomed("bg"))
+		// CONNECTED is raised on behalf of the welcome line, before any later line
+		// is handled: while its foreground handlers run the tracker stands still
+		c.HandleFunc(client.CONNECTED, func(c *client.Conn, l *client.Line) {
+			before := st.String()
+			for i := g.S.Choose(4) * 6; i > 0; i-- {
+				simrt.Sleep(0)
+			}
+			simrt.Sleep(time.Duration(g.S.Choose(4)) * time.Millisecond)
+			after := st.String()
+			e.Check()
+			if canonDump(before) != canonDump(after) {
+				e.Violation("fg-handler-intruded", "while a foreground CONNECTED handler was running the tracker changed (a later line was applied):\nat entry: %s\nat exit:  %s", canonDump(before), canonDump(after))
+			}
+		})
 	}
 	discs := 0
 	c.HandleFunc(client.DISCONNECTED, func(*client.Conn, *client.Line) { discs++ })
